@@ -205,6 +205,133 @@ pub fn cases(thorough: bool) -> Vec<Case> {
     out
 }
 
+// -------------------------------------------------------------------------------------------
+// BFS over choke-relevant histories (reaches the optimistic-unchoke states of the manager)
+// -------------------------------------------------------------------------------------------
+
+use crate::explore::{self, Scenario};
+
+pub struct Upload {
+    pub incoming: bool,
+}
+
+#[derive(Default)]
+pub struct UpMon {
+    pub unchoked: bool,
+    pub scanned: usize,
+    pub bitfield_sent: bool,
+    pub interested: bool,
+    pub time: u64,
+}
+
+const UP_REQUESTS: [(&str, (u32, u32, u32)); 4] = [("Q0", (0, 0, 1)), ("Q2", (2, 1, 3)), ("Q1", (1, 0, 1)), ("Qb", (0, 16386, 3))];
+
+impl Scenario for Upload {
+    type Mon = UpMon;
+    fn name(&self) -> String {
+        format!("upload-{}", if self.incoming { "incoming" } else { "outgoing" })
+    }
+    fn cfg(&self) -> WorldCfg {
+        WorldCfg { torrent: torrent(), have: vec![0, 2], peers: vec![peer_cfg(0, !self.incoming)], gated: false }
+    }
+    fn explore_choices(&self) -> bool {
+        true
+    }
+    fn setup(&self, w: &mut World, mon: &mut UpMon) {
+        let t = w.t.clone();
+        let id = w.peers[0].cfg.id;
+        w.feed(0, &[refwire::handshake(t.meta.info_hash(), &id)]);
+        w.step(&Ev::AdvanceTo(20_500), &[]); // rates reported: rotations are carried out
+        mon.time = 20_500;
+    }
+    fn enabled(&self, w: &World, mon: &UpMon, _depth: usize) -> Vec<String> {
+        if w.peers[0].ended.get() {
+            return vec![];
+        }
+        let mut e = vec!["R".to_string(), if mon.interested { "N".to_string() } else { "I".to_string() }];
+        if !mon.bitfield_sent {
+            e.push("B".to_string());
+        }
+        e.extend(UP_REQUESTS.iter().map(|r| r.0.to_string()));
+        e
+    }
+    fn concretize(&self, _w: &World, _mon: &UpMon, sym: &str) -> Vec<Ev> {
+        let m = match sym {
+            "R" => return vec![Ev::Rotate],
+            "I" => Msg::Interested,
+            "N" => Msg::NotInterested,
+            "B" => Msg::Bitfield(vec![0x40]), // the peer owns piece 1, which the client lacks
+            q => {
+                let r = UP_REQUESTS.iter().find(|r| r.0 == q).unwrap().1;
+                Msg::Request(r.0, r.1, r.2)
+            }
+        };
+        vec![Ev::Feed(0, refwire::encode(&m))]
+    }
+    fn check(&self, w: &World, mon: &mut UpMon, last: Option<&str>) -> Option<(&'static str, String)> {
+        if let Some(d) = &w.dead {
+            return Some(("manager-died", d.clone()));
+        }
+        if let Some(p) = w.handler_panics.first() {
+            return Some(("connection-task-panicked", p.clone()));
+        }
+        match last {
+            Some("I") => mon.interested = true,
+            Some("N") => mon.interested = false,
+            Some("B") => mon.bitfield_sent = true,
+            _ => {}
+        }
+        let t = &w.t;
+        let msgs = &w.peers[0].msgs;
+        let req = last.and_then(|l| UP_REQUESTS.iter().find(|r| r.0 == l)).map(|r| r.1);
+        let mut pieces = 0;
+        for m in &msgs[mon.scanned..] {
+            match m {
+                Msg::Unchoke => mon.unchoked = true,
+                Msg::Choke => mon.unchoked = false,
+                Msg::Piece(i, b, d) => {
+                    pieces += 1;
+                    if !mon.unchoked {
+                        return Some(("piece-sent-while-choked", format!("Piece({},{},{}B) written although the last choke-state frame on this connection is Choke (or none)", i, b, d.len())));
+                    }
+                    let r = match req {
+                        Some(r) => r,
+                        None => return Some(("piece-without-request", format!("Piece({},{},{}B) written in a step without a request", i, b, d.len()))),
+                    };
+                    let owned = *i == 0 || *i == 2;
+                    let ok = owned && *i == r.0 && *b == r.1 && d.len() as u32 == r.2 && (r.1 as usize + r.2 as usize) <= t.pieces[*i as usize].len() && d[..] == t.pieces[*i as usize][r.1 as usize..(r.1 + r.2) as usize];
+                    if !ok {
+                        return Some(("piece-for-invalid-request", format!("Request{:?} answered with Piece({},{},{}B)", r, i, b, d.len())));
+                    }
+                }
+                _ => {}
+            }
+        }
+        mon.scanned = msgs.len();
+        if pieces > 1 {
+            return Some(("more-than-one-piece-per-request", format!("{} Piece frames in one step", pieces)));
+        }
+        None
+    }
+    fn key(&self, w: &World, mon: &UpMon) -> String {
+        format!("{} wire={} bf={} int={}", crate::c12::strip_counters(&w.default_key()), mon.unchoked, mon.bitfield_sent, mon.interested)
+    }
+    fn tags(&self, w: &World, _mon: &UpMon) -> Vec<&'static str> {
+        let mut t = vec![];
+        let s = w.snap();
+        if s.peers.iter().any(|p| p.optimistic_unchoke && !p.am_choked) {
+            t.push("peer holds the optimistic unchoke");
+        }
+        if s.peers.iter().any(|p| p.optimistic_unchoke && p.am_choked) {
+            t.push("peer choked while still flagged optimistic");
+        }
+        if w.new_msgs(0).iter().any(|m| matches!(m, Msg::Piece(..))) {
+            t.push("block uploaded");
+        }
+        t
+    }
+}
+
 pub fn run(ctx: &Ctx) -> Outcome {
     let all = cases(ctx.tier == core::Tier::Thorough);
     let res = core::par_map(
@@ -241,14 +368,27 @@ pub fn run(ctx: &Ctx) -> Outcome {
             }
         }
     }
+    // BFS part
+    let mut bfs_total = explore::Stats { exhaustive: true, ..Default::default() };
+    let mut per = vec![];
+    for incoming in [true, false] {
+        let sc = Upload { incoming };
+        let depth = ctx.tier.pick(8, 10);
+        let st = explore::bfs(ctx, &sc, depth, ctx.tier.pick(40, 20));
+        per.push(json!({"scenario": Scenario::name(&sc), "depth": depth, "states": st.states, "transitions": st.transitions, "depth_completed": st.depth_completed}));
+        bfs_total.merge(&st);
+    }
     let mut o = Outcome::new("model_checking");
-    o.set("states", json!(keys.len()));
-    o.set("transitions", json!(steps));
-    o.set("traces_validated_against_impl", json!(done));
+    o.set("states", json!(keys.len() as u64 + bfs_total.states));
+    o.set("transitions", json!(steps + bfs_total.transitions));
+    o.set("traces_validated_against_impl", json!(done + bfs_total.executions));
+    o.set("bfs_scenarios", Value::Array(per));
+    o.set("bfs_transitions_in_which_situation_occurred", json!(bfs_total.tags));
+    o.set("bfs_exhaustive", json!(bfs_total.exhaustive));
     o.set("histories", json!(all.len()));
     o.set("histories_ending_with_a_loaded_piece", json!(served));
     o.set("exhaustive", json!(done == all.len() as u64));
-    o.set("rule", json!(format!("requests = {:?} x {:?} x {:?} (240); histories: every single request in each of the contexts {:?} on an outgoing and an incoming connection; every pair (r1, r2) with r1 from {} and one of {:?} in between{}; states = distinct final snapshots, transitions = events executed", IDX, BEG, LEN, CONTEXTS, if ctx.tier == core::Tier::Thorough { "all 240 requests" } else { "the 6 loader requests" }, MIDS, if ctx.tier == core::Tier::Thorough { "; every triple over a 12-request sub-alphabet with every pair of in-between decisions" } else { "" })));
+    o.set("rule", json!(format!("requests = {:?} x {:?} x {:?} (240); histories: every single request in each of the contexts {:?} on an outgoing and an incoming connection; every pair (r1, r2) with r1 from {} and one of {:?} in between{}; states = distinct final snapshots, transitions = events executed. BFS part: one connection (both directions), events I/N interest, B bitfield, R real rotation (optimistic choice enumerated), Q0/Q2/Qb valid requests for owned pieces, Q1 request for the piece the client lacks, to the stated depth - this reaches the manager states in which the peer holds, or held, the optimistic unchoke", IDX, BEG, LEN, CONTEXTS, if ctx.tier == core::Tier::Thorough { "all 240 requests" } else { "the 6 loader requests" }, MIDS, if ctx.tier == core::Tier::Thorough { "; every triple over a 12-request sub-alphabet with every pair of in-between decisions" } else { "" })));
     let picks = ctx.seeded_pick(all.len(), 4);
     o.set("samples", Value::Array(picks.iter().map(|i| json!({"connection": if all[*i].incoming { "incoming" } else { "outgoing" }, "context": CONTEXTS[all[*i].ctx], "requests": all[*i].seq.iter().map(|(r, m)| json!({"request": [r.0, r.1, r.2], "then": MIDS[*m]})).collect::<Vec<_>>()})).collect()));
     o.assume("client owns pieces 0 (16387 B) and 2 (5 B), not piece 1; choke/unchoke decisions are produced by the real rotation (timeout_change_conn_state) after the connection reported its rates; overflow checks are on, as in cargo test / cargo run builds");
@@ -257,6 +397,9 @@ pub fn run(ctx: &Ctx) -> Outcome {
 }
 
 pub fn replay(_ctx: &Ctx, r: &Value) -> i32 {
+    if let Some(name) = r["scenario"].as_str() {
+        return explore::replay_verbose(&Upload { incoming: name.contains("incoming") }, &explore::hist_from_json(&r["history"]), "C09");
+    }
     let c = Case {
         incoming: r["incoming"].as_bool().unwrap(),
         ctx: r["ctx"].as_u64().unwrap() as usize,
